@@ -92,8 +92,67 @@ func (z *Zipper) ComputeDiff() (*ZipperArtifacts, error) {
 	z.propagate()
 	z.matchTerminators()
 	z.unmatchInconsistentBranches()
+	z.unmatchReorderedEffects()
 
 	return z.isolateDivergence(), nil
+}
+
+// touchesMemoryOrWorld reports whether the order in which instr executes relative to
+// other such instructions can be observed: it writes or reads memory, communicates,
+// or calls out.
+func touchesMemoryOrWorld(instr ssa.Instruction) bool {
+	switch i := instr.(type) {
+	case *ssa.Store, *ssa.MapUpdate, *ssa.Send, *ssa.Call, *ssa.Go, *ssa.Defer,
+		*ssa.RunDefers, *ssa.Panic, *ssa.Select, *ssa.Lookup:
+		return true
+	case *ssa.UnOp:
+		return i.Op == token.MUL || i.Op == token.ARROW // load, receive
+	}
+	return false
+}
+
+// unmatchReorderedEffects drops the pairing of instructions with observable order when
+// the matching does not keep that order.  The matching follows data flow only: after
+// exchanging two stores through pointers that may alias (*p = 1; *q = 2), two calls, or
+// a load and a store, every instruction still finds a partner although the function
+// computes something else.  Two such instructions of one block whose partners sit in one
+// block in the opposite order are reported as removed and added instead.
+func (z *Zipper) unmatchReorderedEffects() {
+	index := make(map[ssa.Instruction]int)
+	for _, b := range z.newFn.Blocks {
+		for k, instr := range b.Instrs {
+			index[instr] = k
+		}
+	}
+	for _, b := range z.oldFn.Blocks {
+		type seen struct {
+			old ssa.Instruction
+			idx int
+		}
+		last := make(map[*ssa.BasicBlock]seen) // per new block: the latest partner so far
+		var drop []ssa.Instruction
+		for _, instr := range b.Instrs {
+			if !touchesMemoryOrWorld(instr) {
+				continue
+			}
+			partner, ok := z.instrMap[instr]
+			if !ok {
+				continue
+			}
+			nb, k := partner.Block(), index[partner]
+			if prev, ok := last[nb]; ok && k < prev.idx {
+				drop = append(drop, prev.old, instr)
+				continue // keep comparing with the furthest partner seen
+			}
+			last[nb] = seen{old: instr, idx: k}
+		}
+		for _, old := range drop {
+			if partner, ok := z.instrMap[old]; ok {
+				delete(z.revInstrMap, partner)
+				delete(z.instrMap, old)
+			}
+		}
+	}
 }
 
 // unmatchInconsistentBranches drops the pairing of two conditional branches when
